@@ -42,6 +42,15 @@ Theorem C19_h5_roundtrip : forall sk : h5_sk, h5_ok sk = true ->
 Proof. exact h5_roundtrip. Qed.
 Print Assumptions C19_h5_roundtrip.
 
+(* in the file a dataset is named by its keys joined with "/": because no key contains "/" or is
+   empty, distinct leaves also get distinct *names* (no dataset overwrites another) *)
+Theorem C19_h5_names_distinct : forall sk : h5_sk, h5_ok sk = true ->
+  forall (d : list (string * tree)) (f : hfile),
+  top_ok d = true -> no_marker (TDict d) = true -> enc_h5 sk d = Ok f ->
+  NoDup (map (fun e => join (fst e)) f).
+Proof. exact h5_names_distinct. Qed.
+Print Assumptions C19_h5_names_distinct.
+
 (* ... and for result-shaped dictionaries (scalars, None, strings, numpy scalars, numeric arrays,
    structured arrays, lists of scalars of one kind, nested dictionaries of these) it does succeed *)
 Theorem C19_h5_result_writes : forall sk : h5_sk, h5_ok sk = true ->
